@@ -17,8 +17,10 @@ import time
 ROOT = os.path.dirname(os.path.dirname(os.path.abspath(__file__)))
 SPEC = os.path.join(ROOT, "spec")
 HARNESS = os.path.join(ROOT, "harness")
-OUT = os.path.join(ROOT, "out")
-EVID = os.path.join(ROOT, "evidence")
+# VERIF_REPO / VERIF_OUT / VERIF_EVID redirect a run to another checkout of jrhy/s3db and to private output
+# directories (used only to try seeded changes in scratch worktrees, in parallel with normal runs).
+OUT = os.environ.get("VERIF_OUT", os.path.join(ROOT, "out"))
+EVID = os.environ.get("VERIF_EVID", os.path.join(ROOT, "evidence"))
 REPO = os.environ.get("VERIF_REPO", "/repo")
 KNOWN = os.path.join(ROOT, "KNOWN_FINDINGS.txt")
 
@@ -51,16 +53,21 @@ def goenv():
 def build_harness(race=False):
     """Rebuild the harness against the current working tree of /repo."""
     os.makedirs(os.path.join(OUT, "bin"), exist_ok=True)
-    shutil.copyfile(os.path.join(REPO, "go.sum"), os.path.join(HARNESS, "go.sum"))
-    # point the replace directive at REPO (default /repo)
-    gm = open(os.path.join(HARNESS, "go.mod")).read()
-    gm2 = re.sub(r"replace github.com/jrhy/s3db => \S+", "replace github.com/jrhy/s3db => " + REPO, gm)
-    if gm2 != gm:
-        open(os.path.join(HARNESS, "go.mod"), "w").write(gm2)
+    hdir = HARNESS
+    if REPO != "/repo":
+        # private copy of the harness module whose replace directive points at the other checkout
+        hdir = os.path.join(OUT, "harness-src")
+        if os.path.isdir(hdir):
+            shutil.rmtree(hdir)
+        shutil.copytree(HARNESS, hdir, ignore=shutil.ignore_patterns("vharness*", "go.sum"))
+        gm = open(os.path.join(hdir, "go.mod")).read()
+        gm = re.sub(r"replace github.com/jrhy/s3db => \S+", "replace github.com/jrhy/s3db => " + REPO, gm)
+        open(os.path.join(hdir, "go.mod"), "w").write(gm)
+    shutil.copyfile(os.path.join(REPO, "go.sum"), os.path.join(hdir, "go.sum"))
     out = os.path.join(OUT, "bin", "vharness-race" if race else "vharness")
     cmd = ["go", "build", "-tags", "verif"] + (["-race"] if race else []) + ["-o", out, "."]
     t0 = time.time()
-    p = subprocess.run(cmd, cwd=HARNESS, env=goenv(), capture_output=True, text=True)
+    p = subprocess.run(cmd, cwd=hdir, env=goenv(), capture_output=True, text=True)
     if p.returncode != 0:
         raise MachineryError("harness build failed (the tree under %s may not compile):\n%s" % (REPO, p.stderr[-3000:]))
     log("built %s in %.1fs" % (out, time.time() - t0))
@@ -262,6 +269,8 @@ def _renumber(path):
     out = []
     for i, line in enumerate(lines):
         e = json.loads(line)
+        if "cseq" in e and e.get("seq"):
+            e["cseq"] = (i + 1) - (e["seq"] - e["cseq"])
         e["seq"] = i + 1
         out.append(json.dumps(e, separators=(",", ":")))
     open(path, "w").write("\n".join(out) + "\n")
@@ -309,7 +318,7 @@ def load_known():
 
 def match_known(kfs, prop, viol, features):
     for kf in kfs:
-        if kf.get("property") != prop:
+        if prop not in kf.get("property", "").split(","):
             continue
         if kf.get("pred") and kf["pred"] != viol.get("pred"):
             continue
